@@ -63,6 +63,8 @@ LAYOUTS = {
     "overlap": [("D", [0, 3], ["x"], "array"), ("D", [0], ["y", "x"], "const"), ("D", [3], ["y"], "func"), ("N", [2], ["x", "y"], "const")],
     "duplicated": [("D", [0], ["x"], "const"), ("D", [0], ["x"], "const"), ("D", [0, 3], ["x", "y"], "func"), ("D", [0], ["x"], "array"), ("S", [1, 2], ["x"], "const")],
     "reordered": [("S", [1, 2], ["y"], "poly"), ("N", [2], ["x"], "const"), ("D", [3], ["y"], "const"), ("D", [0], ["x", "y"], "const")],
+    # nodal ARRAYS of prescribed values on selections listed in non-ascending node order (value k belongs to the k-th listed node)
+    "unsorted": [("D", [3, 0], ["x"], "array"), ("D", [3, 1, 0], ["y"], "array"), ("N", [4, 2], ["x", "y"], "array"), ("S", [2, 1], ["y"], "poly")],
     # exactly ONE Dirichlet condition, with non-zero values (a function of position over several nodes)
     "single": [("D", [0, 3], ["x", "y"], "func"), ("N", [2], ["x"], "const")],
 }
